@@ -70,3 +70,48 @@ def meta_overwrite(first, kind="date", **kw):
     except Exception as e:  # noqa: BLE001
         return True, f"reading back raised {e!r}"
     return _norm(got.get("k")) != _norm(v) or len(got) != 1, f"entry overwritten with {v!r} reads back as {got!r}"
+
+
+import odfdo.variable as V_  # noqa: E402
+
+CARRIERS = {"varset": V_.VarSet, "varget": V_.VarGet, "userfielddecl": V_.UserFieldDecl, "userfieldget": V_.UserFieldGet,
+            "userdefined": V_.UserDefined}
+LOOKUP = {"varset": "get_variable_set_value", "userfielddecl": "get_user_field_value", "userdefined": "get_user_defined_value"}
+
+
+def _in_body(e):
+    body = Element.from_tag("office:text")
+    body.append(e)
+    return body
+
+
+def _carrier(v, carrier, other, norm=_norm):
+    cls = CARRIERS[carrier]
+    e = cls("nm", v)
+    got = [e.get_value(), _fresh(e).get_value()]
+    if carrier in LOOKUP:
+        got.append(getattr(_in_body(e), LOOKUP[carrier])("nm"))
+    names = [e.name]
+    if "set_value" in cls.__dict__:
+        e2 = cls("nm", other)
+        e2.set_value(v)
+        got.append(e2.get_value())
+        names.append(e2.name)
+    bad = any(norm(g) != norm(v) or (isinstance(v, (bool, str)) and type(g) is not type(v)) for g in got) or any(n != "nm" for n in names)
+    return bad, f"{cls.__name__}('nm', {v!r}) read back as {got!r}, names {names!r}"
+
+
+def carrier_temporal(kind="date", carrier="varset", **kw):
+    return _carrier(VALUES[kind], carrier, "txt")
+
+
+def carrier_string(s, carrier="varset", **kw):
+    return _carrier(s, carrier, True)
+
+
+def carrier_simple(b, carrier="varset", **kw):
+    for v in (b, 0, -3, 12, 10 ** 20, Decimal("1.50"), None):
+        bad, msg = _carrier(v, carrier, "txt")
+        if bad:
+            return bad, msg
+    return False, "simple values"
